@@ -456,7 +456,7 @@ def run_fieldname_case(sh, case):
   from pymtl3 import Component, InPort, OutPort, Wire, mk_bits, mk_bitstruct, update
   from pymtl3.dsl.Connectable import Signal
   rng = sh.rng("fieldname", case)
-  pool = ["inverse", "get_type", "default_value", "elaborate", "construct", "is_signal", "get_field_name", "get_host_component", "apply",
+  pool = ["inverse", "get_type", "default_value", "elaborate", "construct", "is_signal", "get_field_name", "get_host_component", "apply", "_pad", "_rsvd", "_x",
           "data", "val", "rdy", "msg", "opaque", "type_", "addr", "len"]
   fields = rng.sample(pool, rng.randrange(2, 5))
   T = mk_bitstruct(f"FN_{sh.idx}_{case}", {f: mk_bits(rng.choice([1, 4, 8])) for f in fields})
@@ -472,7 +472,9 @@ def run_fieldname_case(sh, case):
   sh.count("fieldname_designs")
   for f in fields:
     sh.count("fieldname_fields_checked")
-    o = getattr(top.x, f)
+    try: o = getattr(top.x, f)
+    except AttributeError as e:
+      sh.violation("struct-field-of-a-signal-is-not-a-signal", {"field": f, "got": "AttributeError: " + str(e)[:80], "fields": fields, "signal_kind": kind.__name__}, case=("fieldname", case)); return
     if not isinstance(o, Signal):
       sh.violation("struct-field-of-a-signal-is-not-a-signal", {"field": f, "got": type(o).__name__, "fields": fields, "signal_kind": kind.__name__}, case=("fieldname", case)); return
     try: back = eval(repr(o), {"s": top})
